@@ -325,6 +325,47 @@ def r5_optional_centre(idx, r):
         raise AnalysisError("no use of a by-location lookup found in the geometry converters")
 
 
+def r6_pairing_order_and_targets(idx, r):
+    """(a) scaleParamsRelatedToSymmetry walks the assemblies of the two symmetry lines pairwise (zip): both lists must come out ordered by RING,
+    innermost first - raw grid indices run the other way along the 120-degree line.  (b) when a multigroup flux is recombined, the
+    matching scalar flux is the one rewritten: mgFlux -> flux, adjMgFlux -> fluxAdj, mgFluxGamma -> fluxGamma (distinct targets).
+    (c) the rotated copies placed by convert() carry a displacement turned with the same matrix as everything else (shared with R08.4)."""
+    f = idx.method("armi.reactor.cores.Core", "getAssembliesOnSymmetryLine")
+    keys = [k.value for c in iter_calls(f.node) if call_attr(c) in ("sort",) or dotted(c.func) == "sorted" for k in c.keywords if k.arg == "key"]
+    if len(keys) != 1:
+        raise AnchorMissing("Core.getAssembliesOnSymmetryLine: one sort with a key")
+    ktxt = norm(keys[0])
+    if "getRingPos" in ktxt or "getRing(" in ktxt:
+        r.ok("symmetry-line:ordered-by-ring", f, node=keys[0])
+    elif any(t in ktxt for t in ("getCompleteIndices", "indices", ".i", ".j", "getLocation", "getName", "getNum")):
+        r.violate("symmetry-line:ordered-by-ring", f, f"the assemblies of a symmetry line are ordered by `{ktxt}`, not by ring: along the 120-degree line grid indices (and names) do not grow with the ring, "
+                  "so the pairwise walk in scaleParamsRelatedToSymmetry combines a ring-3 assembly with the ring-5 one of the other line", node=keys[0])
+    else:
+        raise AnalysisError(f"getAssembliesOnSymmetryLine: sort key `{ktxt}` not understood")
+    sp = idx.method(GC + ".EdgeAssemblyChanger", "scaleParamsRelatedToSymmetry")
+    z = [n for n in walk_local(sp.node) if isinstance(n, ast.For) and isinstance(n.iter, ast.Call) and dotted(n.iter.func) == "zip"]
+    r.require(len(z) >= 2, "symmetry-line:walked-pairwise", sp, msg="assemblies and their blocks are walked pairwise")
+    sf = idx.func(GC + "._scaleFluxValues")
+    pn = sf.params()[2]
+    seen = {}
+    for n in walk_local(sf.node):
+        if isinstance(n, ast.If) and isinstance(n.test, ast.Compare) and norm(n.test.left) == pn and isinstance(n.test.comparators[0], ast.Constant):
+            name = n.test.comparators[0].value
+            tg = [s_.attr for s_ in iter_stores(ast.Module(body=n.body, type_ignores=[])) if s_.chain and s_.chain.startswith(sf.params()[0] + ".p.")]
+            if len(tg) != 1:
+                raise AnalysisError(f"_scaleFluxValues: branch for {name!r} not understood")
+            seen[name] = tg[0]
+    if len(seen) < 3:
+        raise AnchorMissing("_scaleFluxValues: branches for mgFlux / adjMgFlux / mgFluxGamma")
+    for name, tgt in sorted(seen.items()):
+        rest = name.replace("mgFlux", "").replace("MgFlux", "")
+        r.require(tgt.lower() == "flux" + rest.lower(), f"flux-target:{name}", sf,
+                  msg=f"recombining `{name}` rewrites the scalar `{tgt}`; it must rewrite `flux{rest[:1].upper() + rest[1:]}` - the scalar flux of another kind is overwritten and this one stays stale")
+    r.require(len(set(seen.values())) == len(seen), "flux-target:distinct", sf, msg=f"each multigroup flux has its own scalar: {seen}")
+    from .c08 import displacement_rotation
+    displacement_rotation(idx, r)
+
+
 def run(idx, chk):
     chk.explanation = (
         "C13: in ThirdCoreHexToFullCoreChanger.convert every symmetric location gets exactly one deep-copied, uniquely named, rotated and recorded "
@@ -344,3 +385,5 @@ def run(idx, chk):
                  necessary="'every volume-integrated total [is] three times the third-core value': the declaration is what puts a total on the scaled list")
     chk.run_rule("R13.5", "the answer of a by-location lookup (None for an empty location) is used only after being tested", lambda r: r5_optional_centre(idx, r), floor=1,
                  necessary="'undoing the conversion returns the core to its previous state' - also for a core without a centre assembly")
+    chk.run_rule("R13.6", "symmetry-line assemblies are paired by ring; each recombined multigroup flux rewrites its own scalar; displacement turns with the copy", lambda r: r6_pairing_order_and_targets(idx, r), floor=8,
+                 necessary="add-edge / scale / remove-edge restores every block's parameters; every new assembly is its source rotated into place")
